@@ -41,6 +41,7 @@ type FuncInfo struct {
 	phiRels       map[*ssa.Phi][]*phiRel
 	phiPass       int
 	candTerms     []*Term
+	refVisiting   map[ssa.Value]bool
 }
 
 // MemDef is one instruction that may write a class.
